@@ -9,10 +9,11 @@ func genC21(o *Out) {
 	t := o.pinFile("isaac/database/temp_leveldb.go", "TempLeveldb.Merge", "TempLeveldb.Remove", "TempLeveldb.isMerged", "NewTempLeveldbFromPrefix", "newTempLeveldbFromBlockWriteStorage")
 	w := o.pinFile("isaac/database/block_write.go", "LeveldbBlockWrite.Write", "LeveldbBlockWrite.SetBlockMap", "LeveldbBlockWrite.SetStates", "LeveldbBlockWrite.SetOperations",
 		"LeveldbBlockWrite.SetSuffrageProof", "LeveldbBlockWrite.TempDatabase", "LeveldbBlockWrite.batchAdd", "LeveldbBlockWrite.batchDone", "removeHigherHeights")
-	c := o.pinFile("isaac/database/center.go", "Center.MergeBlockWriteDatabase", "Center.MergeAllPermanent", "Center.mergePermanent", "Center.removeTemp", "loadTemp", "loadTemps", "mergeToPermanent", "Center.load")
+	c := o.pinFile("isaac/database/center.go", "Center.MergeBlockWriteDatabase", "Center.MergeAllPermanent", "Center.mergePermanent", "Center.removeTemp", "loadTemp", "loadTemps", "mergeToPermanent", "Center.load", "Center.RemoveBlocks")
+	u := o.pinFile("util/slice.go", "TraverseSlice")
 	_ = o.pinFile("storage/leveldb/prefix.go", "RemoveByPrefix")
 	_ = o.pinFile("storage/leveldb/db.go", "BatchRemove", "Storage.Batch", "Storage.Put")
-	if p == nil || t == nil || w == nil || c == nil {
+	if p == nil || t == nil || w == nil || c == nil || u == nil {
 		return
 	}
 	body := func(fl *File, recv, name string) string {
@@ -40,4 +41,13 @@ func genC21(o *Out) {
 	a := strings.Index(mp, "perm.MergeTempDatabase(ctx, temp)")
 	b := strings.Index(mp, "remove(temp)")
 	o.boolean("tempRemovedAfterMerge", a >= 0 && a < b && strings.Contains(mp, "if len(temps) < 2 {"))
+	// RemoveBlocks removes the temps newest first: db.temps is kept newest first (a new temp is put in front, loadTemps
+	// sorts by descending height), the slice up to the asked height is walked from its start, one Remove at a time
+	rb := body(c, "Center", "RemoveBlocks")
+	mb := body(c, "Center", "MergeBlockWriteDatabase")
+	o.boolean("removeBlocksNewestFirst", strings.Contains(rb, "if err := util.TraverseSlice(db.temps[:index+1], func(_ int, temp isaac.TempDatabase) error { return temp.Remove() }); err != nil { return false, err }") &&
+		strings.Contains(rb, "case height > db.temps[0].Height(): return false, nil") &&
+		strings.Contains(body(u, "", "TraverseSlice"), "for i := range s { if err := f(i, s[i]); err != nil { return err } }") &&
+		strings.Contains(mb, "temps[0] = temp copy(temps[1:], db.temps)") &&
+		strings.Contains(lt, "sort.Slice(temps, func(i, j int) bool { return temps[i].Height() > temps[j].Height() })"))
 }
